@@ -5,7 +5,7 @@ Contest and CVR objects   vs.   Shangrla.Phantoms.makePhantoms (lean/Shangrla/Mo
 Vote contents, tally_pool and pool arguments are drawn from a case-local seed and never sent to the model: a record
 is (id, which contests it lists, phantom flag).
 """
-import copy, itertools, random
+import copy, numbers, itertools, random
 from ..core import impl_call
 
 NAME = "phantoms"
@@ -34,6 +34,16 @@ def _build(case):
     contests = Contest.from_dict_of_dicts({c["id"]: {"id": c["id"], "cards": c["cards"], "risk_limit": 0.05}
                                            for c in case["contests"]})
     cvrs = [CVR(id=r["id"], votes=_votes(rng, r["styles"]), phantom=bool(r["phantom"])) for r in case["cvrs"]]
+    if case.get("num_type"):
+        # counts as the library itself leaves them after Contest.check_cards / a sum over a manifest column: numpy
+        # integers (or floats holding whole numbers) instead of Python ints -- equal values
+        import numpy as np
+        conv = {"np": np.int64, "np32": np.int32, "float": float}[case["num_type"]]
+        for con in contests.values():
+            if con.cards is not None:
+                con.cards = conv(con.cards)
+        if case["num_type"] != "float":
+            audit.strata["s1"].max_cards = conv(audit.strata["s1"].max_cards)
     return audit, contests, cvrs, rng
 
 
@@ -57,7 +67,7 @@ def impl(case):
     new = out[k:]
     return {"st": "ok",
             "recs": [{"id": r.id, "styles": list(r.votes.keys()), "phantom": bool(r.phantom)} for r in out],
-            "n": int(n), "n_is_int": isinstance(n, int),
+            "n": int(n), "n_is_int": isinstance(n, numbers.Integral),   # a Python or numpy integer, not a float
             "contests": [{"id": c["id"], "cards": (None if contests[c["id"]].cards is None else int(contests[c["id"]].cards)),
                           "cvrs": int(contests[c["id"]].cvrs)} for c in case["contests"]],
             "originals_first_unchanged": bool(same),
@@ -180,8 +190,11 @@ def gen_random(rng):
     if not malformed:
         need = max([sum(1 for r in cvrs if not r["phantom"] and c in r["styles"]) for c in cids] + [n])
         mx = max(mx, need)
-    return {"use_style": rng.chance(0.65), "max_cards": mx, "prefix": rng.choice(["phantom-", "phantom-", "ph", "", "P_1_"]),
-            "contests": cons, "cvrs": cvrs, "vseed": rng.randint(0, 10 ** 6)}
+    out = {"use_style": rng.chance(0.65), "max_cards": mx, "prefix": rng.choice(["phantom-", "phantom-", "ph", "", "P_1_"]),
+           "contests": cons, "cvrs": cvrs, "vseed": rng.randint(0, 10 ** 6)}
+    if rng.chance(0.2):
+        out["num_type"] = rng.choice(["np", "np", "np32"])
+    return out
 
 
 def gen_options(rng):
